@@ -382,8 +382,10 @@ impl World {
         };
         if opts.mine {
             let target = header.target();
-            while header.validate_pow(target).is_err() {
-                header.nonce += 1;
+            let mut tries = 0u32;
+            while header.validate_pow(target).is_err() && tries < 300_000 {
+                header.nonce = header.nonce.wrapping_add(1);
+                tries += 1;
             }
         }
         let mut block = Block::new(BitcoinBlock { header, txdata: txs });
